@@ -142,6 +142,11 @@ func ReadFile(r io.Reader) (File, []string, error) {
 		nextCommentLines = []string{}
 		nextRecordOpCode = 0
 	}
+	// Next also stops on tokenizer errors (malformed input, a failing reader); those
+	// must not be mistaken for the end of the file.
+	if err := tr.Err(); err != nil {
+		return f, warnings, err
+	}
 	return f, warnings, nil
 }
 
